@@ -192,7 +192,9 @@ def cf_rule_2_of_do_calculus_applies(
     #: also called "blocked nodes"
     conditions = {n for n in cf_graph.nodes() if not is_not_self_intervened(n)}
     graph_mod = cf_graph.remove_out_edges(condition)
+    # the two variables being tested are not part of the conditioning set (a self-intervened
+    # outcome or condition would otherwise be deleted from the graph before the path search)
     return all(
-        are_d_separated(graph_mod, outcome, condition, conditions=conditions)
+        are_d_separated(graph_mod, outcome, condition, conditions=conditions - {outcome, condition})
         for outcome in outcomes
     )
